@@ -263,10 +263,14 @@ def ev(e, env):
 GRID_I = (-2, -1, 0, 1, 2, 3, 5, 8)
 
 
-def equivalent(e1, e2, params):
+def equivalent(e1, e2, params, where=None):
+    """agreement on a grid of assignments; `where` restricts the grid to the assignments that can occur in the code
+    (ranks and rounds are not negative, rank < procs, ...): two forms that differ only outside are the same piece"""
     doms = [GRID_I if t == "I" else (False, True) for (_, t) in params]
     for vals in itertools.product(*doms):
         env = {n: v for (n, _), v in zip(params, vals)}
+        if where is not None and not where(env):
+            continue
         if ev(e1, env) != ev(e2, env):
             return False
     return True
@@ -385,7 +389,7 @@ class Gen:
         self.lists = []
         self.flags = []
 
-    def piece(self, name, doc, params, canon, occurrences, expect=1, table=()):
+    def piece(self, name, doc, params, canon, occurrences, expect=1, table=(), where=None):
         """params: [(name, 'I'|'B')]; canon and occurrences: expression strings over the parameter names
         (occurrences after applying `table`)"""
         types = dict(params)
@@ -402,7 +406,7 @@ class Gen:
                 if sort_of(e) != sort_of(cexpr):
                     raise TranslateError("expression of the wrong sort: %r" % occ)
                 good += 1
-                if not equivalent(e, cexpr, params) and status == "canonical":
+                if not equivalent(e, cexpr, params, where) and status == "canonical":
                     chosen, status = e, "as written in the source (differs from the canonical form)"
             except TranslateError as ex:
                 self.unparsed.append("%s: %s" % (name, str(ex)[:160]))
@@ -482,23 +486,24 @@ def translate(repo):
     conds = if_conditions(build)
     g.piece("nothingToDo", "buildRemote returns at once: `if(procs==1 && !(sendTwo || includeSelf_)) return;`",
             [("procs", "I"), ("sendTwo", "B"), ("includeSelf_", "B")], "procs==1 && !(sendTwo || includeSelf_)",
-            first_or_err([c for (c, after) in conds if re.match(r"\s*return\s*;", after)], "early return of buildRemote"))
+            first_or_err([c for (c, after) in conds if re.match(r"\s*return\s*;", after)], "early return of buildRemote"),
+            where=lambda v: v["procs"] >= 1)
     g.piece("handleSelf", "the own message is unpacked: `if(sendTwo || includeSelf_) unpackCreateRemote(buffer[0], ...)`",
             [("sendTwo", "B"), ("includeSelf_", "B")], "sendTwo || includeSelf_",
             first_or_err([c for (c, after) in conds if re.match(r"\s*unpackCreateRemote\s*\(\s*buffer\s*\[\s*0\s*\]", after)],
                          "self-message test of buildRemote"))
     g.piece("ringMode", "ring algorithm instead of hinted neighbours: `if(neighbourIds.size()==0)`",
             [("nbSize", "I")], "nbSize==0",
-            first_or_err([c for (c, _) in conds if "neighbourIds" in c][:1], "ring-mode test"),
+            first_or_err([c for (c, _) in conds if "neighbourIds" in c][:1], "ring-mode test"), where=lambda v: v["nbSize"] >= 0,
             table=[(r"neighbourIds\s*\.\s*size\s*\(\s*\)", "nbSize"), (r"neighbourIds\s*\.\s*empty\s*\(\s*\)", "(nbSize==0)")])
     m = re.search(r"for\s*\(\s*int\s+proc\s*=\s*([^;]+);([^;]+);\s*(proc\s*\+\+|\+\+\s*proc)\s*\)", build)
     g.piece("ringFirst", "first ring round: `for(int proc=1; ...`", [], "1", [m.group(1)] if m else [TranslateError("ring loop not found")])
     g.piece("ringCont", "ring loop condition: `proc<procs`", [("proc", "I"), ("procs", "I")], "proc<procs",
-            [m.group(2)] if m else [TranslateError("ring loop not found")])
+            [m.group(2)] if m else [TranslateError("ring loop not found")], where=lambda v: v["proc"] >= 1 and v["procs"] >= 1)
     g.piece("ringOutBuf", "buffer sent in ring round proc: `p_out = buffer[1-(proc%2)]`", [("proc", "I")], "1-(proc%2)",
-            first_or_err(find_all(r"p_out\s*=\s*buffer\s*\[([^\]]+)\]", build), "p_out"))
+            first_or_err(find_all(r"p_out\s*=\s*buffer\s*\[([^\]]+)\]", build), "p_out"), where=lambda v: v["proc"] >= 0)
     g.piece("ringInBuf", "buffer received into in ring round proc: `p_in = buffer[proc%2]`", [("proc", "I")], "proc%2",
-            first_or_err(find_all(r"p_in\s*=\s*buffer\s*\[([^\]]+)\]", build), "p_in"))
+            first_or_err(find_all(r"p_in\s*=\s*buffer\s*\[([^\]]+)\]", build), "p_in"), where=lambda v: v["proc"] >= 0)
     sends, recvs = [], []
     for mm in re.finditer(r"MPI_Ssend\s*\(", build):
         args, _ = paren_arg(build, mm.end() - 1)
@@ -511,12 +516,15 @@ def translate(repo):
         if len(a) >= 4 and a[0] == "p_in":
             recvs.append(a[3])
     g.piece("ringSendTo", "destination of a ring message: `MPI_Ssend(p_out, ..., (rank+1)%procs, ...)`",
-            [("rank", "I"), ("procs", "I")], "(rank+1)%procs", first_or_err(sends, "ring MPI_Ssend"), expect=2)
+            [("rank", "I"), ("procs", "I")], "(rank+1)%procs", first_or_err(sends, "ring MPI_Ssend"), expect=2,
+            where=lambda v: 0 <= v["rank"] < v["procs"])
     g.piece("ringRecvFrom", "source of a ring message: `MPI_Recv(p_in, ..., (rank+procs-1)%procs, ...)`",
-            [("rank", "I"), ("procs", "I")], "(rank+procs-1)%procs", first_or_err(recvs, "ring MPI_Recv"), expect=2)
+            [("rank", "I"), ("procs", "I")], "(rank+procs-1)%procs", first_or_err(recvs, "ring MPI_Recv"), expect=2,
+            where=lambda v: 0 <= v["rank"] < v["procs"])
     g.piece("ringOrigin", "process the message of ring round proc stems from: `remoteProc = (rank+procs-proc)%procs`",
             [("rank", "I"), ("procs", "I"), ("proc", "I")], "(rank+procs-proc)%procs",
-            first_or_err(find_all(r"int\s+remoteProc\s*=\s*([^;]+);", build)[:1], "remoteProc of the ring"))
+            first_or_err(find_all(r"int\s+remoteProc\s*=\s*([^;]+);", build)[:1], "remoteProc of the ring"),
+            where=lambda v: 0 <= v["rank"] < v["procs"] and 1 <= v["proc"] < v["procs"])
     g.piece("sendTwo", "two index sets are sent: `char sendTwo = (source_ != target_)`",
             [("sameObject", "B")], "!sameObject",
             first_or_err(find_all(r"sendTwo\s*=\s*([^;]+);", build)[:1], "sendTwo"),
@@ -552,7 +560,8 @@ def translate(repo):
         if len(a) >= 4:
             occ = [a[3]]
     g.piece("destEntries", "number of local target pairs when two sets were received: `sendTwo ? destPublish : sourcePublish`",
-            [("sendTwo", "B"), ("destPublish", "I"), ("sourcePublish", "I")], "sendTwo ? destPublish : sourcePublish", occ)
+            [("sendTwo", "B"), ("destPublish", "I"), ("sourcePublish", "I")], "sendTwo ? destPublish : sourcePublish", occ,
+            where=lambda v: v["destPublish"] >= 0 and v["sourcePublish"] >= 0)
     g.piece("dropEntry", "nothing is inserted: `if(receive->empty() && send->empty())`",
             [("receiveEmpty", "B"), ("sendEmpty", "B")], "receiveEmpty && sendEmpty",
             first_or_err([c for (c, _) in if_conditions(ucr) if "empty" in c], "emptiness test"),
